@@ -14,12 +14,12 @@ import Pog.Lemmas.GenCode
 
     the two copies of `_get_primary_response` are the same function                        (full)    `primary_selection_agree`
     a declared 2xx status always selects a `return` arm, never an `HTTPError` raise         (full)    `declared_2xx_never_raises_passthrough`
-    … and the call really returns                                                          ✗         `declared_2xx_returns_counterexample`
-                                                                                           (partial) `declared_2xx_returns_partial`
+    … and the call really returns (F58 repaired: Union dispatch included)                  (full)    `declared_2xx_returns`, `declared_2xx_union_dispatch_returns`
     a declared 2xx response without content returns None                                    (full, distinct keys) `no_content_returns_none`
     every other declared 2xx response has its own arm with its own return                   (full, distinct keys) `secondary_2xx_arm_exists`
     text responses return the text sent                                                     ✗         `text_response_parsed_as_json_counterexample`
     binary (non-streamed) responses return the bytes sent                                   ✗         `secondary_binary_parsed_as_json_counterexample`
+    a secondary 2xx response with several media types dispatches on the Content-Type        ✗ (F59)   `secondary_2xx_ignores_content_type_counterexample`
     a streaming primary response next to another 2xx response                                ✗         `stream_with_second_2xx_breaks_module_counterexample`
 -/
 namespace Pog.C05
@@ -59,15 +59,16 @@ theorem declared_2xx_never_raises_passthrough (t : TransportKind) (op : Op) (r :
       exact runAction_isReturn_not_raised hret cls st w why
   · simp [hm]
 
-/-- C05 "the call returns a value" for the inputs the generator gets right: the module imports and the return
-    type is not a `Union` over several response media types. -/
-theorem declared_2xx_returns_partial (t : TransportKind) (op : Op) (r : Reply) (hm : moduleOk op = true)
-    (hu : (resolveStrategy op.responses).isUnion = false)
+/-- C05 "the call returns a value": whenever the emitted module imports, a declared 2xx status makes the call
+    RETURN (never `NameError`, never an `HTTPError`) — for every operation, both transports, `Union` return types over
+    several response media types included (the missing `structure_from_dict` import of the Content-Type dispatch,
+    F58, is repaired; before the repair this needed the hypothesis `isUnion = false`). -/
+theorem declared_2xx_returns (t : TransportKind) (op : Op) (r : Reply) (hm : moduleOk op = true)
     (h2 : 200 ≤ r.status ∧ r.status < 300) (hd : ∃ x ∈ op.responses, x.key = .num r.status) :
     ∃ k, handle t op r = .returned k := by
   have hret := select_declared_2xx_isReturn op.responses r.status h2 hd
   have hb : ¬ (r.status < 200 ∨ r.status ≥ 300) := by omega
-  obtain ⟨k, hk⟩ := runAction_returns (r := r) hu hret
+  obtain ⟨k, hk⟩ := runAction_returns (r := r) hret
   refine ⟨k, ?_⟩
   unfold handle
   cases t <;> simp [hm, hb, hk]
@@ -79,11 +80,10 @@ def exUnion : Op :=
 
 example : moduleOk exUnion = true ∧ (resolveStrategy exUnion.responses).isUnion = true := by decide +kernel
 
-/-- ✗ C05: when the primary response has several media types of different python types, the Content-Type
-    dispatch calls `structure_from_dict` without the module ever importing it: a conforming JSON answer ends in
-    `NameError` (while the `text/plain` branch works). -/
-theorem declared_2xx_returns_counterexample :
-    handle .bundled exUnion ⟨200, some "application/json".toList⟩ = .nameError ∧
+/-- The shape that used to end in `NameError` (F58): the JSON branch of a Content-Type dispatch structures the body,
+    the `text/plain` branch returns the text. -/
+theorem declared_2xx_union_dispatch_returns :
+    handle .bundled exUnion ⟨200, some "application/json".toList⟩ = .returned (.structure (.model "Report".toList)) ∧
     handle .bundled exUnion ⟨200, some "text/plain; charset=utf-8".toList⟩ = .returned .text := by
   decide +kernel
 
@@ -142,6 +142,18 @@ theorem secondary_binary_parsed_as_json_counterexample :
     handle .bundled ⟨"GET".toList, [.lit "/file".toList], [], none,
       [⟨.num 200, [⟨mtJson, .int⟩]⟩, ⟨.num 206, [⟨"application/octet-stream".toList, .binary⟩]⟩]⟩
       ⟨206, some "application/octet-stream".toList⟩ = .returned (.cast .bytes) := by
+  decide +kernel
+
+/-- ✗ C05 (F59): a 2xx response that is NOT the primary one gets one `return` chosen from `application/json` (else the
+    first media type) — the arm never looks at the Content-Type header.  A `201` declared as
+    `application/problem+json: Problem | application/json: Created` answers a conforming `Problem` body by
+    structuring it as `Created`. -/
+theorem secondary_2xx_ignores_content_type_counterexample :
+    let op : Op := ⟨"POST".toList, [.lit "/jobs".toList], [], none,
+      [⟨.num 200, [⟨mtJson, .model "Job".toList⟩]⟩,
+       ⟨.num 201, [⟨"application/problem+json".toList, .model "Problem".toList⟩, ⟨mtJson, .model "Created".toList⟩]⟩]⟩
+    handle .passthrough op ⟨201, some "application/problem+json".toList⟩ = .returned (.structure (.model "Created".toList)) ∧
+    handle .passthrough op ⟨201, some "application/json".toList⟩ = .returned (.structure (.model "Created".toList)) := by
   decide +kernel
 
 /-- ✗ C05: a streaming primary response together with any other numeric 2xx response puts `yield` and
